@@ -18,8 +18,12 @@ import backend_gen as bg  # noqa: E402
 PROPS = ["C03", "C05", "C06", "C08", "C10", "C16", "C17", "C20"]
 
 _COMMON_NOTE = ("Sequential consistency at the granularity of the hook sites (weak-memory reasoning is confined to C01/C02); the per-thread "
-                "queue inside the model is the proved bounded SPSC model; libfmt/PatternFormatter are bypassed by a '%(message)' pattern "
-                "(C12/C04 cover them); the unbounded queue variants are exercised by C02/C09, the end-to-end harness runs the bounded ones.")
+                "queue inside the model is the proved bounded SPSC model, and for the two unbounded builds a chain of such nodes run the same way "
+                "(Backend/UQueue.lean: growth by Uspsc.growDecision, shrink, buffer switch with the F25 retry); libfmt/PatternFormatter are bypassed "
+                "by a '%(message)' pattern (C12/C04 cover them); all four FrontendOptions builds of H2 are compared line by line with the model. "
+                "The theorem bundles A-V are proved for the bounded machine; for the unbounded machine conservation, chain coherence, the "
+                "emptiness test and the C09 grant-after-drain are proved for every operation list (bundle X, Props/C03U.lean), the other "
+                "properties are tied by the correspondence and the oracles only.")
 
 _SCOPE = ("Theorems quantify over every `ops : List Op` of the backend model: frontend calls of any number of threads (log calls of every kind, "
           "flush_log, logger create/remove/remove-blocking, level changes, dropped sink references, thread start/exit, clock ticks, stalls after "
@@ -31,11 +35,11 @@ _SCOPE = ("Theorems quantify over every `ops : List Op` of the backend model: fr
 MANIFEST = {
     "C03": dict(
         technique="Lean 4 proof: conservation and dispatch invariants of the backend model over all schedules (per context accepted = popped ++ transit buffer ++ queue, byte-exact coherence with the proved bounded SPSC queue, every pop emits exactly the dispatch block, ids unique, at most once per sink over the whole log; transit ring buffer refines a FIFO); deterministic differential correspondence of the real Frontend/BackendWorker with the compiled model under a scheduler harness with hook-site injections + exactly-once/order/delivery oracles",
-        text=_SCOPE + "Proved for every schedule: C03_conservation (accepted = popped ++ buf ++ qStmts per context, in issue order), C03_queue_coherent (the pending statements are exactly the unread records of the queue, byte counts included), C03_empty_test_sound, C03_removed_drained (a context is dropped only invalid, empty, with accepted = popped), C03_dispatch_exact (one write per sink of the logger whose level and filters accept, in sink order, cut at the first throwing sink), C03_pop_emits_dispatch, C03_ids_unique, C03_at_most_once (number of ordinary writes of an id at a sink over the whole log <= multiplicity of the sink in its logger's list), C03_writes_only_of_popped; the TransitEventBuffer (growth from the reader position, slot reuse, shrink) refines a FIFO (C03_transit_refines, own correspondence stream on the real class). Exactly once over the WHOLE event log: C03_nothing_written_before_pop (a statement still queued or buffered has no write anywhere), C03_pop_writes_exactly (the pop leaves exactly one write per occurrence of each sink that accepts it at dispatch time; with a write fault only the sinks before the faulting one), C03_writes_frozen_after_pop (afterwards the count never changes, through every schedule), C03_exactly_once (their composition across one processing call and any later schedule; the acceptance decision is the one of the state in which that call starts). Tie: real Logger/macros/ThreadContextManager/BackendWorker (ManualBackendWorker) under a deterministic scheduler (virtual clock, parked frontend calls, injected operations), every observation line recomputed by the compiled Lean model; oracles on the recorded sink calls (exactly once, per-thread order, accepted => delivered after the drain) also on the two unbounded-queue builds.",
+        text=_SCOPE + "Proved for every schedule: C03_conservation (accepted = popped ++ buf ++ qStmts per context, in issue order), C03_queue_coherent (the pending statements are exactly the unread records of the queue, byte counts included), C03_empty_test_sound, C03_removed_drained (a context is dropped only invalid, empty, with accepted = popped), C03_dispatch_exact (one write per sink of the logger whose level and filters accept, in sink order, cut at the first throwing sink), C03_pop_emits_dispatch, C03_ids_unique, C03_at_most_once (number of ordinary writes of an id at a sink over the whole log <= multiplicity of the sink in its logger's list), C03_writes_only_of_popped; the TransitEventBuffer (growth from the reader position, slot reuse, shrink) refines a FIFO (C03_transit_refines, own correspondence stream on the real class). Exactly once over the WHOLE event log: C03_nothing_written_before_pop (a statement still queued or buffered has no write anywhere), C03_pop_writes_exactly (the pop leaves exactly one write per occurrence of each sink that accepts it at dispatch time; with a write fault only the sinks before the faulting one), C03_writes_frozen_after_pop (afterwards the count never changes, through every schedule), C03_exactly_once (their composition across one processing call and any later schedule; the acceptance decision is the one of the state in which that call starts). Tie: real Logger/macros/ThreadContextManager/BackendWorker (ManualBackendWorker) under a deterministic scheduler (virtual clock, parked frontend calls, injected operations), every observation line recomputed by the compiled Lean model; oracles on the recorded sink calls (exactly once, per-thread order, accepted => delivered after the drain) also on the two unbounded-queue builds, whose every observation line is likewise recomputed by the unbounded-queue machine of the model (C03U_conservation / C03U_queue_coherent: the same conservation and byte-exact coherence for the chain of buffers, every operation list).",
         note=_COMMON_NOTE, ref="§5 C03, §4.3, §9.1"),
     "C05": dict(
         technique="Lean 4 proof: ordering invariant over all schedules under the property's own grace-period premise (pop order sorted by timestamp); extraction of the sample-then-refresh order with a negative witness for the pinned order (F5); differential correspondence incl. registration inside the sampling window and inside the clock read",
-        text=_SCOPE + "Proved: C05_pop_order / C05_statement_order — if every accepted record satisfies enqueue time <= timestamp + grace (the property's premise, checked on the final state), the sequence of popped statements (hence of writes at every sink) is sorted by timestamp, for grace != 0 and the extracted fact that the context cache is refreshed after ts_now is sampled; C05_order_continues from any state satisfying the invariant. Negative witnesses by `decide`: the pinned order (refresh before the clock read, F5, repaired) pops 1000, 1101, 1100 under the premise; a call stalled longer than the grace period breaks premise and order. Obligations: stop on a future timestamp, do-while read loop, strict minimum, both batch guards (extracted). Unbounded queue: the backend model carries the bounded queue, so the ordering theorem is proved for it; what the argument needs from the unbounded queue — a read pass misses nothing that is committed — is proved on the C02 chain model (Uspsc.C05_unbounded_read_complete: with the retry rule of _read_unbounded_frontend_queue a read answers nothing only when every buffer from the consumer's to the producer's is drained, otherwise the oldest unread committed record; decide witnesses for both values of the rule = finding F25, found by the thorough tier on the unbounded H2 builds and repaired) and tied by the rp operation of the H1 harness on the real queue; end to end the unbounded builds run under the property oracles only.",
+        text=_SCOPE + "Proved: C05_pop_order / C05_statement_order — if every accepted record satisfies enqueue time <= timestamp + grace (the property's premise, checked on the final state), the sequence of popped statements (hence of writes at every sink) is sorted by timestamp, for grace != 0 and the extracted fact that the context cache is refreshed after ts_now is sampled; C05_order_continues from any state satisfying the invariant. Negative witnesses by `decide`: the pinned order (refresh before the clock read, F5, repaired) pops 1000, 1101, 1100 under the premise; a call stalled longer than the grace period breaks premise and order. Obligations: stop on a future timestamp, do-while read loop, strict minimum, both batch guards (extracted). Unbounded queue: the backend model carries the bounded queue, so the ordering theorem is proved for it; what the argument needs from the unbounded queue — a read pass misses nothing that is committed — is proved on the C02 chain model (Uspsc.C05_unbounded_read_complete: with the retry rule of _read_unbounded_frontend_queue a read answers nothing only when every buffer from the consumer's to the producer's is drained, otherwise the oldest unread committed record; decide witnesses for both values of the rule = finding F25, found by the thorough tier on the unbounded H2 builds and repaired) and tied by the rp operation of the H1 harness on the real queue; end to end the unbounded builds are compared line by line with the unbounded-queue machine of the backend model (which executes exactly this retry rule, flag extracted) and run under the property oracles; the ordering theorem itself is proved for the bounded machine.",
         note=_COMMON_NOTE + " rdtsc→epoch conversion is not modelled (System clock in the harness).", ref="§5 C05, §9.1, Appendix A.2"),
     "C06": dict(
         technique="Lean 4 proof: flag-after-flush invariants on the backend model for every schedule (flag only after the Flush event was popped, own statements popped first, every sink of every logger not yet erased flushed before the flag, other threads' strictly older statements popped under C05's hypotheses, request never dropped or counted); witnesses for F6 and F12; differential correspondence + oracle at the moment flush_log returns",
@@ -59,7 +63,7 @@ MANIFEST = {
         note=_COMMON_NOTE + " Contract assumed (enforced identically by generator, harness and model as no-ops): no log call through a logger after remove_logger, no re-creation before the removal completed. File closing by ~FileSink is libc/OS behaviour: the harness uses recording sinks; real file sinks are C14/C15/C07's harnesses.", ref="§5 C17, §3.3 site 9, §9.1"),
     "C20": dict(
         technique="Lean 4 proof: reclamation invariants on the backend model for every schedule (invalid-context counter exact modulo 2^bits with the width extracted, a live thread's context never reclaimed, a reclaimed context empty with accepted = popped, after an idle pass the registry is exactly the live threads' contexts up to unreported failure counters); witnesses for a narrow counter (F13); differential correspondence with thread churn; shrink/capacity oracles on the unbounded builds",
-        text=_SCOPE + "Proved: C20_counter (invalidCnt = number of registered invalid contexts mod 2^bits), C20_counter_exact and C20_early_return_iff (below 2^bits registered contexts — obligation 32 <= extracted width; 1- and 2-bit witnesses reproduce F13 in miniature), C20_live_contexts_registered, C20_reclaimed_delivered (an unregistered context is empty and everything it accepted was popped: pending statements of an exited thread are delivered before the reclaim), C20_idle_poll_reclaims (after an idle pass that found everything empty every registered context is valid or holds a not yet reported failure counter — the F24 repair keeps those one more pass), C20_idle_poll_retains_live and C20_quiet_idle_poll_retains_live (idle pass with nothing injected: the registry is a permutation of the live threads' contexts, counts agree — 'contexts retained = live threads that logged'), for any number of start/exit cycles. The hand-over of a NEW context between register_thread_context and the backend's cache refresh is proved at atomic-access granularity (Reg.C20_registration_not_lost: never 'registered, not cached, flag consumed', for any number of threads, every schedule and stale load; C20_next_update_picks_up; witnesses for flag-before-push, reset-after-copy, relaxed unlock) and tied to the real ThreadContextManager / BackendWorker members under the N-thread atomic shim (harness h1_reg). Shrinking of the unbounded queue (capacity drops, nothing lost or reordered) is proved on the queue model in C02 (C02_shrink_iff, chain safety) and checked here by the capacity/shrink oracles on the two unbounded H2 builds; the backend model itself carries the bounded queue.",
+        text=_SCOPE + "Proved: C20_counter (invalidCnt = number of registered invalid contexts mod 2^bits), C20_counter_exact and C20_early_return_iff (below 2^bits registered contexts — obligation 32 <= extracted width; 1- and 2-bit witnesses reproduce F13 in miniature), C20_live_contexts_registered, C20_reclaimed_delivered (an unregistered context is empty and everything it accepted was popped: pending statements of an exited thread are delivered before the reclaim), C20_idle_poll_reclaims (after an idle pass that found everything empty every registered context is valid or holds a not yet reported failure counter — the F24 repair keeps those one more pass), C20_idle_poll_retains_live and C20_quiet_idle_poll_retains_live (idle pass with nothing injected: the registry is a permutation of the live threads' contexts, counts agree — 'contexts retained = live threads that logged'), for any number of start/exit cycles. The hand-over of a NEW context between register_thread_context and the backend's cache refresh is proved at atomic-access granularity (Reg.C20_registration_not_lost: never 'registered, not cached, flag consumed', for any number of threads, every schedule and stale load; C20_next_update_picks_up; witnesses for flag-before-push, reset-after-copy, relaxed unlock) and tied to the real ThreadContextManager / BackendWorker members under the N-thread atomic shim (harness h1_reg). Shrinking of the unbounded queue (capacity drops, nothing lost or reordered) is proved on the queue model in C02 (C02_shrink_iff, chain safety) and, inside the backend model, by C03U_shrink_keeps / C20U_empty_test_sound_run (a shrink request loses and reorders nothing, the clean-up's emptiness test is sound for the whole chain, every operation list); the capacity reported after every shrink request and every buffer switch of the two unbounded H2 builds is recomputed by the model and checked by the capacity oracles.",
         note=_COMMON_NOTE, ref="§5 C20, §7 F13 F24, §9.1"),
 }
 
@@ -118,20 +122,23 @@ if THEOREMS.get("C03"):
 _ALL_MANIFEST = MANIFEST
 MANIFEST = {p: d for p, d in _ALL_MANIFEST.items() if THEOREMS.get(p)}
 
-VARIANTS = {0: "BoundedBlocking", 1: "BoundedDropping"}
-# the unbounded builds (512-byte initial node, 4 KiB maximum: growth, switches, shrink requests, over-max records) are run
-# with the property oracles only — the Lean backend model carries the bounded queue (the unbounded one is C02's subject)
-ORACLE_ONLY = {2: "UnboundedBlocking", 3: "UnboundedDropping"}
+# the unbounded builds (512-byte initial node, 4 KiB maximum: growth, switches, shrink requests, over-max records) are
+# compared line by line with the unbounded-queue machine of the Lean backend model (Backend/UQueue.lean, USched.lean, UOps.lean:
+# the chain of bounded nodes in sequentially consistent mode), like the bounded ones with the bounded machine
+VARIANTS = {0: "BoundedBlocking", 1: "BoundedDropping", 2: "UnboundedBlocking", 3: "UnboundedDropping"}
+UNBOUNDED = (2, 3)
+ORACLE_ONLY = {}
 
 
 def params_line(ex):
     b = ex.get("backend", {})
     q = ex.get("bounded", {})
-    return "params drain=%d invalidBits=%d refreshAfterSample=%d catchAll=%d batchPct=%d reportFlush=%d keepUnreported=%d flushInvalid=%d replayCatch=%d" % (
+    return "params drain=%d invalidBits=%d refreshAfterSample=%d catchAll=%d batchPct=%d reportFlush=%d keepUnreported=%d flushInvalid=%d replayCatch=%d follow=%d flushBeforeErase=%d" % (
         1 if q.get("drainPublish", True) else 0, b.get("invalidBits", 32), 1 if b.get("refreshAfterSample", True) else 0,
         1 if b.get("catchAllFormat", True) else 0, q.get("defaultPercent", 5), 1 if b.get("reportBeforeFlushCleanup", True) else 0,
         1 if b.get("cleanupKeepsUnreported", True) else 0, 0 if b.get("flushOnlyValidLoggers", False) else 1,
-        1 if b.get("replayCatchesPerEvent", True) else 0)
+        1 if b.get("replayCatchesPerEvent", True) else 0, 1 if b.get("unboundedReadFollowsEmptyBuffers", True) else 0,
+        1 if b.get("flushBeforeLoggerErase", True) else 0)
 
 
 def run_script(hbin, name, lines, workdir):
@@ -178,6 +185,14 @@ def shrink_script(hbin, lines, still_fails, budget=160):
     return head + body
 
 
+# findings of known_findings.json that an oracle recognises by input class: the oracle message starts with "[Fnn]"
+KNOWN_CLASS_TAGS = ["F34"]
+
+
+def is_known_class(msg, known):
+    return any(msg.startswith("[%s]" % fid) and fid in known for fid in KNOWN_CLASS_TAGS)
+
+
 def classify(impl, model):
     """which properties a differing observation line speaks about"""
     it, mt = set(impl.split()), set(model.split())
@@ -199,6 +214,14 @@ def classify(impl, model):
         props |= {"C06", "C08", "C03"}
     if "ev=" in diff or "skip" in diff:
         props |= {"C16"}
+    # unbounded builds: capacity after shrink / growth (C20, and what the ordering and conservation arguments need from the
+    # queue), grants, blocks and drops at the maximum capacity (C09, C08), a record over the maximum rejected with an error
+    if "cap=" in diff or "n:alloc" in diff:
+        props |= {"C20", "C03", "C05", "C09"}
+    if "threw" in diff or "bytes=" in diff:
+        props |= {"C03", "C08", "C09"}
+    if "parked" in diff:
+        props |= {"C09"}
     return props or set(PROPS)
 
 
@@ -413,7 +436,8 @@ def run(prop, tier):
     ck = vlib.Check(prop, tier, level="proof" if THEOREMS[prop] else "exploration")
     ck.assumptions = [
         "sequential consistency at hook-site granularity; exactly one thread runs at a time in the harness (baton), time is virtual",
-        "the bounded SPSC queue inside the model is Spsc.absApi run with newest-value loads (its weak-memory behaviour is C01's subject)",
+        "the bounded SPSC queue inside the model is Spsc.absApi run with newest-value loads (its weak-memory behaviour is C01's subject); "
+        "the unbounded queue is a chain of such nodes (capacity decisions = Uspsc.growDecision / shrinkAllocates, C02's definitions)",
         "pattern '%(message)' and std::string payloads only: formatting/codec correctness is C04/C12's subject",
     ]
     ps = ck.proof_side(MODULES[prop], THEOREMS[prop], OBLIG_BY_PROP.get(prop, OBLIG)) if THEOREMS[prop] else {"ok": True, "broken": []}
@@ -424,6 +448,11 @@ def run(prop, tier):
     tier_shrinks = os.environ.get("VERIF_NO_SHRINK") is None
     for b in ps["broken"]:
         ck.log("PROOF SIDE BROKEN: " + b)
+    if prop == "C05":
+        # compile the TSC harness while the H2 variants build and run (tools/tsc_stream.py picks up the cached binary)
+        import threading
+        import tsc_stream
+        threading.Thread(target=lambda: vlib.build_harness(tsc_stream.HARNESS[0], tsc_stream.HARNESS[1], extra_flags=tsc_stream.HARNESS[2]), daemon=True).start()
     res = collect(ck, tier, ex)
     if "build_error" in res:
         ck.violation("harness_build", res["build_error"], "harness h2_backend no longer compiles against the current tree (correspondence broken): " + res["build_error"][-300:], no_input=True)
@@ -500,11 +529,20 @@ def run(prop, tier):
         import filesink_stream
         filesink = filesink_stream.run(ck, tier, ps)
 
+    tsc = None
+    if prop == "C05":
+        # the TSC -> epoch conversion: the real RdtscClock vs Tsc.timeSinceEpoch / resync + conversion oracles (tools/tsc_stream.py)
+        import tsc_stream
+        tsc = tsc_stream.run(ck, tier, ps)
+
     sinkreg = None
     if prop == "C17":
         # the by-name sink registry: real SinkManager vs SinkReg.step + idempotence oracles (tools/sinkreg_stream.py)
         import sinkreg_stream
         sinkreg = sinkreg_stream.run(ck, tier, ps)
+        # the by-name logger registry: real LoggerManager vs LogReg.step + linear-search reference (tools/logreg_stream.py)
+        import logreg_stream
+        ck.cov["logger_registry_stream"] = logreg_stream.run(ck, tier, ps)
     if prop in ("C20", "C08"):
         # registration of a thread context (C20) / the failure counter (C08): the real ThreadContextManager, ThreadContext and
         # BackendWorker members under the N-thread atomic shim against `driver reg trace` (tools/reg_stream.py)
@@ -519,6 +557,14 @@ def run(prop, tier):
 
     mine_or = [o for o in res["oracle"] if o["prop"] == prop]
     mine_mm = [m for m in res["mismatches"] if prop in m["props"]]
+    # listed findings are recognised by their input class (the oracle tags the class); anything else still alarms
+    known = {f["id"]: f for f in vlib.known_findings(prop)}
+    known_hits = {}
+    for fid in KNOWN_CLASS_TAGS:
+        if fid in known:
+            tag = "[%s]" % fid
+            known_hits[fid] = [o for o in mine_or if o["msg"].startswith(tag)]
+            mine_or = [o for o in mine_or if not o["msg"].startswith(tag)]
     if res["aborts"]:
         a = res["aborts"][0]
         hb = res.get("bins", {}).get(str(variant_of_case(a["case"])))
@@ -532,10 +578,10 @@ def run(prop, tier):
         hb = res.get("bins", {}).get(str(variant_of_case(o["case"])))
         sc = res.get("scripts", {}).get(o["case"])
         if hb and sc and tier_shrinks:
-            small = shrink_script(hb, sc, lambda rc, out: rc == 0 and any(p == prop for p, _ in bg.oracles(out.split("\n"))))
+            small = shrink_script(hb, sc, lambda rc, out: rc == 0 and any(p == prop and not is_known_class(m, known) for p, m in bg.oracles(out.split("\n"))))
             if len(small) < len(sc):
                 _, _, _, out_small = run_script(hb, "shrunk_%d" % os.getpid(), small, vlib.CACHE)
-                msgs = [m for p, m in bg.oracles(out_small.split("\n")) if p == prop]
+                msgs = [m for p, m in bg.oracles(out_small.split("\n")) if p == prop and not is_known_class(m, known)]
                 if msgs:
                     res.setdefault("scripts", {})[o["case"]] = small
                     res.setdefault("outputs", {})[o["case"]] = out_small
@@ -547,6 +593,18 @@ def run(prop, tier):
         ck.violation("correspondence", replay_text(m["case"], "correspondence stream `backend` disagrees: %s impl=[%s] model=[%s]" % (m["op"], m["impl"], m["model"])),
                      "model and implementation disagree (%d lines relevant to %s), no property oracle fired: %s impl=[%s] model=[%s]" % (
                          len(mine_mm), prop, m["op"], m["impl"][:120], m["model"][:120]), no_input=True)
+    for fid, hits in sorted(known_hits.items()):
+        wit = [o for o in hits if o["case"].startswith("corpus_%s_%s" % (prop, fid.lower()))]
+        if wit:
+            ck.known("%s reproduces in %d case(s) of its input class (%d corpus witness(es)), e.g. case %s: %s | %s; replay=%s" % (
+                fid, len(hits), len(wit), wit[0]["case"], wit[0]["msg"][len(fid) + 3:][:400],
+                re.sub(r"^KNOWN-FINDING: property=\S+ %s " % fid, "", known[fid].get("line", ""))[:300], known[fid].get("replay", "")))
+        elif hits:
+            ck.known("%s reproduces in %d generated case(s) of its input class (its corpus witness no longer does), e.g. case %s: %s" % (
+                fid, len(hits), hits[0]["case"], hits[0]["msg"][len(fid) + 3:][:400]))
+        else:
+            ck.log("listed finding %s does not reproduce any more (corpus witness silent)" % fid)
+        ck.cov["known_%s_hits" % fid] = len(hits)
     if ps["broken"] and not ck.violations:
         ck.violation("proof_broken", "theorems/obligations that no longer check:\n" + "\n".join(ps["broken"]) + "\n",
                      "proof side broken, no failing input found: " + ps["broken"][0][:300], no_input=True)
@@ -575,6 +633,8 @@ def run(prop, tier):
         ck.cov["sink_registry_stream"] = sinkreg
     if filesink is not None:
         ck.cov["stream_sink_flush_stream"] = filesink
+    if tsc is not None:
+        ck.cov["tsc_conversion_stream"] = tsc
     return ck.finish()
 
 
@@ -614,11 +674,22 @@ def replay(prop, path):
     if open(path).readline().startswith("# h2_mixed"):
         import mixed_stream
         return mixed_stream.replay(prop, path)
+    if "h3_tsc" in open(path).readline():
+        import tsc_stream
+        return tsc_stream.replay(prop, path)
+    if "logreg" in open(path).readline():
+        import logreg_stream
+        return logreg_stream.replay(prop, path)
     if open(path).readline().startswith("# h1_reg"):
         import reg_stream
         return reg_stream.replay(prop, path)
     lines = [l.rstrip("\n") for l in open(path) if l.strip() and not l.startswith("#")]
-    v = 1 if re.search(r"\.v1\.|variant=1|v1_", path + " ".join(lines[:2])) else 0
+    # which build: the case name in the replay header ("# case v2_r5_mixed", "(case v3_dir_…)"), a corpus file name
+    # (….v2.txt) or an explicit "variant=N"; default BoundedBlocking
+    head = " ".join(l for l in open(path).read().split("\n")[:6] if l.startswith("#"))
+    mv = (re.search(r"case[ =]+(?:corpus_\S*?_)?v([0-3])_", head) or re.search(r"\.v([0-3])\.", os.path.basename(path)) or
+          re.search(r"variant=([0-3])", head + " " + " ".join(lines[:2])) or re.search(r"\bv([0-3])_", os.path.basename(path)))
+    v = int(mv.group(1)) if mv else 0
     ok, hbin, log = vlib.build_harness("h2_v%d" % v, ["h2_backend.cpp"], extra_flags=["-fno-access-control", "-DH2_VARIANT=%d" % v])
     if not ok:
         print(log)
